@@ -281,6 +281,10 @@ def scene_bundle_stress(draw):
         h = float(max(0, round(h)))
         if h not in hits[i]:
             hits[i].append(h)
+    if draw(st.booleans()):
+        # cirrus far above, reported as second hits of some measurements
+        for i in range(0, n, draw(st.sampled_from([2, 3, 5]))):
+            hits[i].append(float(base + draw(st.sampled_from([6000, 9000]))))
     rows = rows_from_hits(meas, hits)
     case = {'cls': 'bundle_stress', 'rows': draw(order_rows(rows)),
             'prms_hint': {'GROUPING_PRMS': {'height_pad_perc': pad},
